@@ -157,24 +157,34 @@ Qed.
 Record text_spec (C : codec) : Prop := {
   tx_bits : c_bits C = 8%nat;
   tx_items : c_items C = text_doc;
-  tx_try_bits : forall b, b < 256 -> try_bits C b = Some b /\ to_char C b = Some b;
+  (* a literal interpretation of bytes: a byte never decodes to a DIFFERENT byte, the five
+     documented letters decode to themselves and display as themselves (the codec documents that
+     every byte is accepted; refusing undocumented bytes would also satisfy the property) *)
+  tx_try_bits : forall b, b < 256 -> try_bits C b = Some b \/ (try_bits C b = None /\ ~ In b text_doc);
+  tx_char : forall b, In b text_doc -> to_char C b = Some b;
   tx_try_ascii : forall c, c < 256 -> try_ascii C c = if inb c text_doc then Some c else None
 }.
 Definition text_check (C : codec) : bool :=
   (c_bits C =? 8)%nat && nlist_eqb (c_items C) text_doc &&
-  forallb (fun b => opt_eqb (try_bits C b) (Some b) && opt_eqb (to_char C b) (Some b)) bytes256 &&
+  forallb (fun b => opt_eqb (try_bits C b) (Some b) ||
+                    (opt_eqb (try_bits C b) None && negb (inb b text_doc))) bytes256 &&
+  forallb (fun b => opt_eqb (to_char C b) (Some b)) text_doc &&
   forallb (fun c => opt_eqb (try_ascii C c) (if inb c text_doc then Some c else None)) bytes256.
 Theorem text_check_sound C : text_check C = true -> text_spec C.
 Proof.
   unfold text_check. intro H.
-  apply andb_prop in H. destruct H as [H H4]. apply andb_prop in H. destruct H as [H H3].
-  apply andb_prop in H. destruct H as [H1 H2].
+  apply andb_prop in H. destruct H as [H H5]. apply andb_prop in H. destruct H as [H H4].
+  apply andb_prop in H. destruct H as [H H3]. apply andb_prop in H. destruct H as [H1 H2].
   constructor.
   - apply Nat.eqb_eq. exact H1.
   - apply nlist_eqb_eq. exact H2.
   - intros b Hb. pose proof (forall_bytes _ H3 b Hb) as E. cbv beta in E.
-    apply andb_prop in E. split; apply opt_eqb_spec; tauto.
-  - intros c Hc. apply opt_eqb_spec. apply (forall_bytes _ H4 c Hc).
+    apply orb_prop in E. destruct E as [E|E].
+    + left. apply opt_eqb_spec. exact E.
+    + right. apply andb_prop in E. destruct E as [E1 E2]. split; [apply opt_eqb_spec; exact E1|].
+      intro Hin. apply inb_spec in Hin. rewrite Hin in E2. discriminate.
+  - intros b Hb. rewrite forallb_forall in H4. apply opt_eqb_spec. apply H4. exact Hb.
+  - intros c Hc. apply opt_eqb_spec. apply (forall_bytes _ H5 c Hc).
 Qed.
 
 (* ---------------- 1-bit degenerate ---------------- *)
